@@ -330,6 +330,37 @@ func commitMatchesDigest(run *evid.Run, round int) {
 		data, _, err := readAll(reg.GetBlob(bg, "r", ociregistry.Digest(d)))
 		if err != nil || model.Digest(data) != d {
 			run.Violation("invariant/committed-content-matches-digest", fmt.Sprintf("after a successful Commit(%s) under concurrent writes GetBlob gives %d bytes hashing to %s (err=%v)", d, len(data), model.Digest(data), err), map[string]any{"round": round})
+			continue
+		}
+		// the session lives on after the commit (the deferred Cancel, somebody who still has the upload id):
+		// whatever those calls answer, the stored content keeps matching its digest - also while it is read
+		var awg sync.WaitGroup
+		awg.Add(2)
+		go func() {
+			defer awg.Done()
+			if round%2 == 0 {
+				w.Cancel()
+			}
+			for _, off := range []int64{-1, 0, int64(len(base))} {
+				if w2, err := reg.PushBlobChunkedResume(bg, "r", id, off, 0); err == nil {
+					w2.Write([]byte("written after the commit"))
+					if round%3 == 0 {
+						w2.Cancel()
+					}
+				}
+			}
+		}()
+		var during []byte
+		var derr error
+		go func() {
+			defer awg.Done()
+			during, _, derr = readAll(reg.GetBlob(bg, "r", ociregistry.Digest(d)))
+		}()
+		awg.Wait()
+		after, _, aerr := readAll(reg.GetBlob(bg, "r", ociregistry.Digest(d)))
+		run.Count("commit_afterlives", 1)
+		if derr != nil || model.Digest(during) != d || aerr != nil || model.Digest(after) != d {
+			run.Violation("invariant/committed-content-matches-digest/after-session-reuse", fmt.Sprintf("the session of a committed upload was cancelled, resumed and written to; GetBlob(%s) then gives %d bytes hashing to %s (err=%v; read during those calls: %s, err=%v)", d, len(after), model.Digest(after), aerr, model.Digest(during), derr), map[string]any{"round": round})
 		}
 	}
 }
